@@ -27,7 +27,7 @@ ASSUMPTIONS = [
     "copulas: finite-variation margins, level-0 grids of at most 7 points per axis, levels 1..2",
 ]
 REQUIRED_COUNTERS = ["kernels_measured", "conservation_checks", "coarse_drift_checks", "coarse_diffusion_checks",
-                     "coupled_paths_replayed", "nd_kernels_measured", "infinite_variation_copula_chains", "sde_coupling_levels"]
+                     "coupled_paths_replayed", "nd_kernels_measured", "infinite_variation_copula_chains", "sde_coupling_levels", "sde_coupled_libor_paths"]
 MIN_NONTRIVIAL = {"quick": 30, "thorough": 250}
 THOROUGH_ROUNDS = 2      # the thorough tier runs the generators this many times (different seeds)
 SHARD_TIMEOUT = {"quick": 900, "thorough": 7200}
@@ -185,6 +185,55 @@ def _run_sde(case, R):
             R.violation("sde-coupling-coarse-drift-not-level-below", f"{label}: SDE coupling at level {level}: driver drifts (fine, coarse) = ({got_f!r}, {got_c!r}), "
                         f"chains built apart at levels {level} and {level - 1} have drifts ({want_f!r}, {want_c!r})", wit)
             return
+    # ---- a model whose sde drift depends on the state (Libor): along simulated coupled paths the coarse component is the scheme of the level
+    #      below run on the coarse driver path -- its own drifts, evaluated at its own state
+    from rpylib.model.levydrivensde.levylibormodel import LevyLiborModel
+    from .C16 import _euler
+
+    rng = np.random.default_rng(int(case.get("seed", 0)) + 31)
+    try:
+        driver2 = W.build_model(mspec)
+        if not driver2.finite_first_moment():
+            raise ValueError("driver without first moment")
+        m = int(rng.integers(2, 4))
+        t0 = float(0.8 * rng.uniform(0.2, 1.6))
+        libor = LevyLiborModel(libor_rates=rng.uniform(0.01, 0.06, size=m), tenors=[t0 + 0.5 * k for k in range(m + 1)], sigma=rng.uniform(0.2, 1.0, size=(m, 1)), driver=driver2)
+        cp2 = CouplingSDE(model=libor, grid=G.build_grid(dict(g), driver2), method=meth)
+        cp2.initialisation(product)
+        cp2.pre_computation(3, product)
+        pms2 = [MLMCPath(deterministic_path=cp2.fine_process.deterministic_path, activate_spot_underlying=False)]
+        x0v = np.atleast_1d(np.asarray(libor.x0, dtype=float))
+        for level in range(1, 3):
+            cp2.next_level(3, pms2, product)
+            cap = []
+            o2 = cp2.driver_coupling_process.simulate_one_path_with_coupling
+
+            def c2(o2=o2, cap=cap):
+                p = o2()
+                cap.append(p)
+                return p
+
+            cp2.driver_coupling_process.simulate_one_path_with_coupling = c2
+            for _ in range(3):
+                path = cp2.simulate_one_path_with_coupling()
+                drv = cap[-1]
+                times = np.asarray(drv.jump_times, dtype=float)
+                val = np.asarray(path.value(), dtype=float)
+                R.hit("sde_coupled_libor_paths")
+                for comp, mu in ((0, cp2.mc_drift_h), (1, cp2.mc_drift_2h)):
+                    want = _euler(libor, cp2.fine_process.sde_drift, mu, times, np.asarray(drv.jump_path)[comp], np.asarray(drv.diffusion_path)[comp], x0v)
+                    got = np.atleast_2d(val[comp]) + x0v.reshape(-1, 1)
+                    if got.shape != want.shape or not (np.max(np.abs(got - want)) <= 1e-10 * (1 + np.max(np.abs(want)))):
+                        R.violation(f"sde-coupling-{'fine' if comp == 0 else 'coarse'}-component-not-its-own-scheme-libor", f"{label}: Libor SDE coupling at level {level}: the "
+                                    f"{'fine' if comp == 0 else 'coarse'} component differs from the Euler scheme run on its own driver path with its own drifts "
+                                    f"(largest difference {float(np.max(np.abs(got - want))) if got.shape == want.shape else 'shape'})", wit)
+                        return
+            cp2.driver_coupling_process.simulate_one_path_with_coupling = o2
+    except ValueError as exc:
+        R.skip(f"libor-sde-coupling-not-built: {str(exc)[:60]}")
+    except Exception as exc:  # noqa: BLE001
+        R.violation("sde-coupling-libor-raises", f"{label}: {type(exc).__name__}: {exc}", wit)
+        return
     R.nontrivial_case("sde", label, case["grid"]["h"], case["grid"]["n"])
 
 
